@@ -258,6 +258,11 @@ class Fn:
                 self.names.setdefault(p.local, d["name"])
         self._defs = None
         self._preds = None
+        self.promoted = []
+        for i, pj in enumerate(j.get("promoted", [])):
+            pj2 = {"key": "%s::promoted[%d]" % (self.key, i), "name": "promoted", "kind": "Promoted", "arg_count": 0,
+                   "locals": pj["locals"], "blocks": pj["blocks"], "span": j["span"], "debug": []}
+            self.promoted.append(Fn(pj2, prog))
 
     def file(self):
         return self.span["file"]
